@@ -10,6 +10,7 @@ mod optok;
 mod fam_lower;
 mod gen_helpers;
 mod fam_helpers;
+mod fam_sem;
 
 use ctx::Ctx;
 
@@ -48,6 +49,7 @@ fn main() {
         "edit" => fam_edit::run(&mut ctx),
         "lower" => fam_lower::run(&mut ctx),
         "helpers" => fam_helpers::run(&mut ctx),
+        "sem" => fam_sem::run(&mut ctx),
         x => {
             eprintln!("unknown family {x}");
             std::process::exit(2);
